@@ -123,6 +123,11 @@ def fixed_templates():
     t.append("def test(a: Qmatrix[Qint[2], 2, 2]) -> Qint[2]:\n    return a[0][1] + a[1][0]")
     t.append("def test(a: Qint[4]) -> bool:\n    return a[3] and not a[0]")
     t.append("def test(a: Qint[4]) -> bool:\n    return a[4]")
+    t.append("def test(a: Qint[4]) -> bool:\n    return a[-1]")
+    t.append("def test(a: Tuple[bool, bool]) -> bool:\n    return a[-2]")
+    t.append("def test(a: Tuple[Tuple[bool, Qint[2]], bool]) -> bool:\n    u = a[0]\n    return u[0] and u[1][1]")
+    t.append("def test(a: Qmatrix[bool, 2, 2]) -> bool:\n    r = a[1]\n    return r[0] ^ r[1]")
+    t.append("def test(a: bool) -> bool:\n    t = (a,)\n    return t[0]")
     t.append("def test(a: Qint[4]) -> bool:\n    return a[0][0]")
     t.append("def test(a: bool) -> bool:\n    return a[0]")
     t.append("def test(a: Tuple[bool, bool]) -> bool:\n    return a[2]")
@@ -247,6 +252,25 @@ def fixed_templates():
     t.append("def test(a: bool) -> Tuple[bool]:\n    return (a,)")
     t.append("def test(a: bool) -> Tuple[Qint[2], Qint[4]]:\n    return (1, 9)")
     t.append("def test(a: Qint[2]) -> Qint[2]:\n    for x in [(1, 2), (3, 0)]:\n        a = a + x[0]\n    return a")
+    # constants holding a tuple (loop targets over lists of tuples), tuple if-expressions, builtins
+    t.append("def test(a: Qint[2]) -> Tuple[Qint[2], Qint[2]]:\n    for x in [(1, 2)]:\n        t = x\n    return t")
+    t.append("def test(a: Qint[2]) -> Tuple[Qint[2], Qint[4]]:\n    for x in [(1, 9), (3, 12)]:\n        t = x\n    return t")
+    t.append("def test(a: Qint[2]) -> Tuple[Qint[2], Qfixed[1, 2]]:\n    for x in [(1, 0.5)]:\n        t = x\n    return t")
+    t.append("def test(a: Qint[2]) -> Tuple[Qint[2], Qchar]:\n    for x in [(1, 'c')]:\n        t = x\n    return t")
+    t.append("def test(a: Qint[2]) -> Tuple[Qint[2], Qint[2]]:\n    for x in [(True, 2)]:\n        t = x\n    return t")
+    t.append("def test(a: Qint[2]) -> Tuple[Qint[2], Qint[2]]:\n    for x in [(-1, 2)]:\n        t = x\n    return t")
+    t.append("def test(a: Tuple[bool, bool], c: bool, x: bool, y: bool) -> Tuple[bool, bool]:\n    return a if c else (x, y)")
+    t.append("def test(a: Tuple[Qint[2], bool], c: bool, x: Qint[2], y: bool) -> Tuple[Qint[2], bool]:\n    return a if c else (x, y)")
+    t.append("def test(a: Tuple[Qint[2], bool], c: bool, x: Qint[2], y: bool) -> Tuple[Qint[2], bool]:\n    return (x, y) if c else (x + 1, not y)")
+    t.append("def test(a: Tuple[Qint[2], bool], c: bool) -> Tuple[Tuple[Qint[2], bool], bool]:\n    return (a, c)")
+    t.append("def test(a: Tuple[Qint[2], bool], c: bool) -> bool:\n    t = (a, c)\n    return t[0][1]")
+    t.append("def test(a: bool) -> Tuple[bool, bool]:\n    t = (a, not a)\n    u = t\n    return u")
+    t.append("def test(a: Qint[2], b: Qint[2]) -> Qint[2]:\n    return max(a, b, 1)")
+    t.append("def test(a: Qlist[Qint[2], 3]) -> Qint[2]:\n    return min(a)")
+    t.append("def test(a: Qlist[Qint[2], 3]) -> Qint[4]:\n    return sum(a) + len(a)")
+    t.append("def test(a: Qchar) -> Qchar:\n    return chr(ord(a))")
+    t.append("def test(a: Qint[4]) -> Qint[4]:\n    a += 1\n    a -= 2\n    a ^= 3\n    return a")
+    t.append("def test(a: Qint[4]) -> Qint[4]:\n    a <<= 1\n    a >>= 2\n    return a")
     # statements the translator rejects
     t.append("def test(a: bool) -> bool:\n    b: bool = a\n    return b")
     t.append("def test(a: bool) -> bool:\n    pass\n    return a")
@@ -501,7 +525,7 @@ class Converter:
                 raise Unmodelled("float subscript")       # 'a.1.5' is split into two levels
             return None                                    # int('True') / int('x'): ValueError
         if v < 0:
-            raise Unmodelled("negative subscript")         # accepted by the code: a free symbol 'a.-1'
+            return None                                    # OutOfBoundException (or unbound name)
         return v
 
     def subscript(self, e):
@@ -664,7 +688,19 @@ def _winit(tier, seed):
     import qlasskit  # noqa
     from qlasskit.ast2logic import Env
     env = Env()
-    _W.update(tier=tier, seed=seed, type_names={n: t for n, t in env.types})
+    _W.update(tier=tier, seed=seed, type_names={n: t for n, t in env.types}, untyped=[0])
+    # int(x) of a Qfixed whose integer part has no Qint type of that size (Qfixed[1, f]) is typed
+    # None by the implementation: M_Codec.ty has no such type (UNMODELLED in M_Texp.trans_int).
+    # Record, in this worker process only, whether Qint.type_for_size ever answered None.
+    from qlasskit.types.qint import Qint
+    orig = Qint.type_for_size
+
+    def recording(s):
+        r = orig(s)
+        if r is None:
+            _W["untyped"][0] += 1
+        return r
+    Qint.type_for_size = staticmethod(recording)
     signal.signal(signal.SIGVTALRM, _alarm)
 
 
@@ -696,6 +732,82 @@ def _ir_size(ir):
     if k in "aox":
         return 1 + sum(_ir_size(a) for a in ir[1])
     return 1 + sum(_ir_size(a) for a in ir[1:])
+
+
+def _mul_sizing(nm):
+    for c in (2, 4, 6, 8, 12, 16):
+        if nm <= c:
+            return c
+    return 16
+
+
+def model_cost(norm, iargs):
+    """Crude bound on the width of the widest array multiplier the MODEL would have to walk as
+    a tree (M_Types.array_mul builds an expression tree: feasible up to 4x4).  Only a cost
+    heuristic: a wrong estimate costs time (a coqc timeout is reported), never a verdict."""
+    def tw(t):
+        return getattr(t, "BIT_SIZE", 16 if t is not bool else 1)
+    widths = {a.name: tw(a.ttype) for a in iargs}
+    worst = [0]
+
+    def w(e):
+        if isinstance(e, ast.Name):
+            return widths.get(e.id, 16)
+        if isinstance(e, ast.Constant):
+            v = e.value
+            if isinstance(v, bool):
+                return 1
+            if isinstance(v, int) and v >= 0:
+                return next((c for c in (2, 4, 6, 8, 12, 16) if v < 2 ** c), 16)
+            return 8
+        if isinstance(e, ast.BinOp):
+            a, b = w(e.left), w(e.right)
+            if isinstance(e.op, ast.Mult):
+                const = [x for x in (e.left, e.right) if isinstance(x, ast.Constant) and isinstance(x.value, int)
+                         and not isinstance(x.value, bool)]
+                if not (const and const[0].value % 2 == 0):
+                    worst[0] = max(worst[0], max(a, b))
+                return _mul_sizing(2 * max(a, b))
+            if isinstance(e.op, (ast.LShift, ast.RShift)):
+                return a
+            return max(a, b)
+        if isinstance(e, ast.IfExp):
+            w(e.test)
+            return max(w(e.body), w(e.orelse))
+        if isinstance(e, ast.UnaryOp):
+            return w(e.operand)
+        if isinstance(e, ast.Call):
+            ws = [w(x) for x in e.args]
+            nm = getattr(e.func, "id", "")
+            if nm.startswith("Qint") and nm[4:].isdigit():
+                return int(nm[4:])
+            return max(ws + [8])
+        if isinstance(e, ast.Subscript):
+            cur = e
+            while isinstance(cur, ast.Subscript):
+                cur = cur.value
+            return 4 if isinstance(cur, ast.Name) and cur.id in sub_ok else 16
+        for ch in ast.iter_child_nodes(e):
+            if isinstance(ch, ast.expr):
+                w(ch)
+        return 1 if isinstance(e, (ast.Compare, ast.BoolOp)) else 16
+
+    # a subscript of a tuple argument whose elements are all at most 4 bits wide is at most 4 bits wide
+    from typing import get_args
+    def max_elt(t):
+        if hasattr(t, "BIT_SIZE") or t is bool:
+            return tw(t)
+        return max([max_elt(a) for a in get_args(t)] + [1])
+    sub_ok = {a.name for a in iargs if max_elt(a.ttype) <= 4}
+    for a in iargs:
+        if not hasattr(a.ttype, "BIT_SIZE") and a.ttype is not bool:
+            widths[a.name] = 16
+    for st in norm.body:
+        if isinstance(st, ast.Assign) and len(st.targets) == 1 and isinstance(st.targets[0], ast.Name):
+            widths[st.targets[0].id] = w(st.value)
+        elif isinstance(st, (ast.Return, ast.Expr)) and getattr(st, "value", None) is not None:
+            w(st.value)
+    return worst[0]
 
 
 def do_prog(job):  # noqa: C901
@@ -755,6 +867,7 @@ def do_prog(job):  # noqa: C901
         inputs = [b for a in iargs for b in a.bitvec]
         n = len(inputs)
         out["n"] = n
+        _W["untyped"][0] = 0
         try:
             _, rargs, rret, exps = translate_ast(norm, [], [])
             raised = None
@@ -762,6 +875,8 @@ def do_prog(job):  # noqa: C901
             raise
         except BaseException as e:
             raised = f"{type(e).__name__}: {e}"[:160]
+        if raised is None and _W["untyped"][0]:
+            return dict(out, status="unmodelled", why="int() of a Qfixed whose integer part has no Qint type (typed None)")
         st = SymTab(inputs)
         try:
             if raised is None:
@@ -786,7 +901,9 @@ def do_prog(job):  # noqa: C901
         tab = c_list([f"({c_sname(sname_of(nm, ids))}, {k})" for nm, k in st.idx.items()])
         out["prog"] = f"(mkprog {n} {tab} {args_coq} {ret_coq} {c_list(body)})"
         out["obs"] = obs
-        out["route"] = "trans" if n <= MAX_TT_BITS else "shape"
+        out["mul_width"] = model_cost(norm, iargs)
+        out["heavy"] = out["mul_width"] > 4
+        out["route"] = "trans" if (n <= MAX_TT_BITS and not out["heavy"]) else "shape"
         # samples: shadow execution of the ORIGINAL source, and the implementation's list in Python
         samples, impl_fail = [], None
         if raised is None:
@@ -869,13 +986,14 @@ def build_files(results):
             return c_list([f"({r['id']}%N, (p_{r['id']}, o_{r['id']}))" for r in l])
         txt += f"Definition cs_trans : list (N * (prog * iobs)) := {cases(tr)}.\n"
         txt += f"Definition cs_shape : list (N * (prog * iobs)) := {cases(sh)}.\n"
-        txt += f"Definition cs_all : list (N * (prog * iobs)) := {cases(rs)}.\n"
+        txt += f"Definition cs_all : list (N * (prog * iobs)) := {cases([r for r in rs if not r['heavy']])}.\n"
+        txt += f"Definition cs_ev : list (N * (prog * iobs)) := {cases(rs)}.\n"
         samp = c_list([f"({r['id']}%N, {c_list(r['samples'])})" for r in rs if r["samples"]])
         txt += f"Definition samples : list (N * list (list value * option (list bool))) := {samp}.\n"
         txt += "Eval vm_compute in (chk_trans cs_trans).\n"
         txt += "Eval vm_compute in (chk_shape cs_shape).\n"
         txt += "Eval vm_compute in (chk_guard cs_all).\n"
-        txt += "Eval vm_compute in (chk_eval cs_all samples).\n"
+        txt += "Eval vm_compute in (chk_eval cs_ev samples).\n"
         txt += "Eval vm_compute in (chk_thm cs_all samples).\n"
         files.append((f"x{fi:04d}", txt, [r["id"] for r in rs]))
     return files
@@ -937,7 +1055,12 @@ def collect(tier, seed, jobs=16, only=None, progs=None):
     checked = set()
     if ok_vo:
         run_dir = f"{RUN_DIR}.{os.getpid()}"
-        res = C.run_cases(run_dir, [(n, t) for n, t, _ in files])
+        saved = C.COQC_TIMEOUT
+        C.COQC_TIMEOUT = min(saved, 240 if tier == "quick" else 900)
+        try:
+            res = C.run_cases(run_dir, [(n, t) for n, t, _ in files])
+        finally:
+            C.COQC_TIMEOUT = saved
         for name, _, ids_ in files:
             rc, so, se = res[name]
             if rc != 0:
@@ -993,9 +1116,10 @@ def collect(tier, seed, jobs=16, only=None, progs=None):
                           rejected_by_impl=len(okr) - len(accepted), per_origin=dict(per_origin),
                           truth_table_route=len([r for r in okr if r["route"] == "trans"]),
                           shape_route=len([r for r in okr if r["route"] == "shape"]),
+                          heavy_multiplications=len([r for r in okr if r.get("heavy")]),
                           constructs=dict(used.most_common()), coq_files=len(files),
                           outside_theorem_guards=len(guard_out),
-                          outside_guard_examples=[by_id[i]["src"] for i in sorted(guard_out)[:6]]),
+                          outside_guard_examples=[by_id[i]["src"] for i in sorted(guard_out)[:40]]),
         evaluator_vs_shadow=dict(agree=eval_codes[0], DISAGREE=eval_codes[1], only_shadow=eval_codes[2],
                                  only_model=eval_codes[3], neither=eval_codes[4], disagreements=sorted(set(eval_dis))[:20],
                                  disagreeing_programs=len(set(eval_dis)), only_shadow_examples=sorted(set(eval_only_shadow))[:12],
